@@ -82,6 +82,27 @@ def run(tier, seed, drv):
         res.case(SC.scn_key(scn), nontrivial=True)
         res.count("overdue-callbacks")
         SC.check_run(scn, run_, drv, res, monitors_on=MON, corr=("ticker", "mloop"), case_extra={"bus": "sync"})
+    # a device FAILS inside a system simulation while slower siblings of the same inner tick have not answered yet: whatever
+    # the failure does to the run, no scheduler level starts another tick before the tick in progress is over, and nothing is
+    # stamped with another time
+    from .c07 import dev
+    P = 4_000_000
+    for depth in (1, 2):
+        for n_fail in (1, 2):
+            inner = [dev("bad", {"i": ["external", "x"]}, cost=50_000), dev("slow1", {"i": ["external", "x"]}, cost=400_000), dev("slow2", {"i": ["slow1", "o"]}, cost=400_000),
+                     dev("own", cb={"kind": "period", "p": 3 * P}, cost=50_000)]
+            inner[0]["beh"]["fail_at"] = n_fail
+            sysc = {"name": "fsys", "kind": "sys", "inputs": {"x": ["src", "o"]}, "expose": {"y": ["slow2", "o"]}, "components": inner}
+            if depth == 2:
+                sysc = {"name": "fouter", "kind": "sys", "inputs": {"x": ["src", "o"]}, "expose": {"y": ["fsys", "y"]},
+                        "components": [dict(sysc, inputs={"x": ["external", "x"]})]}
+            scn = {"components": [dev("src", cb={"kind": "period", "p": P}, cost=20_000), sysc, dev("after", {"i": [sysc["name"], "y"]}, cost=20_000),
+                                  dev("other", cb={"kind": "period", "p": P + 1_000_000}, cost=20_000)], "n_ticks": n_fail + 4, "max_real": 60_000_000}
+            for b in ("sync", "held"):
+                run_ = run_scenario(scn, bus=b, seed=seed + n_fail)
+                res.case(SC.scn_key(scn) + b, nontrivial=True)
+                res.count("failure-inside-system")
+                SC.check_run(scn, run_, drv, res, monitors_on=("ticker", "tick_times"), corr=("ticker",), case_extra={"bus": b, "held_seed": seed + n_fail}, expect_failures=True)
     return res
 
 
